@@ -129,7 +129,7 @@ func c03Ops(maxL int) []listOp {
 
 type c03Cfg struct {
 	listCfg
-	Ctor   string // "", "0", "-1": constructor argument for the no-capacity family; "marshal", "marshal-nested": made by Marshal
+	Ctor   string // "", "0", "-1", "0,2", "-1,0,3": constructor argument for the no-capacity family; "marshal", "marshal-nested": made by Marshal
 	Policy bool   // an accept-everything push policy is installed (Push then takes the policy path)
 	NoNest bool   // the no-nesting option is set; batches then also offer Stack values
 }
@@ -188,6 +188,10 @@ func c03Machine(c *Ctx, cfg c03Cfg) *Machine[*listInst] {
 			}
 			in := &listInst{s: newStackKind(cfg.Kind, arg), m: &listModel{}}
 			switch cfg.Ctor {
+			case "0,2": // only the first constructor argument speaks (round 14): a later positive one is not a capacity
+				in = &listInst{s: newStackKind(cfg.Kind, 0, 2), m: &listModel{}}
+			case "-1,0,3":
+				in = &listInst{s: newStackKind(cfg.Kind, -1, 0, 3), m: &listModel{}}
 			case "marshal": // brought to life by Marshal on a zero value: no capacity was ever asked for
 				var z stackage.Stack
 				z.Marshal(cfg.Kind, "m0")
@@ -283,7 +287,7 @@ func c03Configs(c *Ctx) []c03Cfg {
 					out = append(out, c03Cfg{listCfg{Kind: k, FIFO: fifo, Cap: lc[0], MaxL: lc[0], Prefill: lc[1], Mtx: fifo}, "", false, false})
 				}
 			}
-			for _, ctor := range []string{"", "0", "-1", "marshal", "marshal-nested"} {
+			for _, ctor := range []string{"", "0", "-1", "0,2", "-1,0,3", "marshal", "marshal-nested"} {
 				out = append(out, c03Cfg{listCfg{k, fifo, 0, false, false, 3, false, false, false, 0, "", false, false, 0}, ctor, false, false})
 			}
 		}
